@@ -210,8 +210,76 @@ fn custom_predicate(name: &str, hay: &str) -> bool {
                 _ => false,
             }
         }
+        // the SQL holds `(X OR (X AND Y))` in some arrangement: an OR one of
+        // whose operands is a top-level AND that has the other operand as a
+        // conjunct (the shape the distributive_or rewrite gets wrong)
+        "or_absorption_shape" => or_absorption_shape(hay),
         _ => false,
     }
+}
+
+/// Split a fully parenthesised `(L OP R)` at its top-level ` OP `.
+fn split_top(s: &str, op: &str) -> Option<(String, String)> {
+    let s = s.trim();
+    if !s.starts_with('(') || !s.ends_with(')') {
+        return None;
+    }
+    let inner = &s[1..s.len() - 1];
+    let b = inner.as_bytes();
+    let mut depth = 0i32;
+    let mut in_str = false;
+    let mut i = 0;
+    while i < b.len() {
+        let c = b[i];
+        if c == b'\'' {
+            in_str = !in_str;
+        } else if !in_str {
+            if c == b'(' {
+                depth += 1;
+            } else if c == b')' {
+                depth -= 1;
+                if depth < 0 {
+                    return None;
+                }
+            } else if depth == 0 && inner[i..].starts_with(op) {
+                return Some((inner[..i].trim().to_string(), inner[i + op.len()..].trim().to_string()));
+            }
+        }
+        i += 1;
+    }
+    None
+}
+
+fn or_absorption_shape(sql: &str) -> bool {
+    // every parenthesised group that is an OR at its top level
+    let b = sql.as_bytes();
+    let mut stack: Vec<usize> = Vec::new();
+    let mut in_str = false;
+    for (i, c) in b.iter().enumerate() {
+        if *c == b'\'' {
+            in_str = !in_str;
+        }
+        if in_str {
+            continue;
+        }
+        if *c == b'(' {
+            stack.push(i);
+        } else if *c == b')' {
+            if let Some(st) = stack.pop() {
+                let group = &sql[st..=i];
+                if let Some((l, r)) = split_top(group, " OR ") {
+                    for (x, other) in [(&l, &r), (&r, &l)] {
+                        if let Some((p, q)) = split_top(other, " AND ") {
+                            if &p == x || &q == x {
+                                return true;
+                            }
+                        }
+                    }
+                }
+            }
+        }
+    }
+    false
 }
 
 pub struct CampaignCfg {
@@ -254,6 +322,23 @@ pub fn still_fails(v: &Violation) -> Option<(String, String, u64, Vec<u32>)> {
         Some((class, detail)) if class == v.class => Some((detail, crate::replay::observe(&rep, v.session, v.stmt), rep.trace, rep.choices)),
         _ => None,
     }
+}
+
+/// `still_fails` with a wall-clock bound: a shrink candidate can be far more
+/// expensive than the original (a dropped filter turning a join into a cross
+/// product, a plan the optimizer chews on for minutes). After `secs` the
+/// attempt counts as "does not fail"; its thread is left to finish on its own.
+fn still_fails_bounded(v: &Violation, secs: u64) -> Option<(String, String, u64, Vec<u32>)> {
+    let c = v.clone();
+    let (tx, rx) = std::sync::mpsc::channel();
+    let spawned = std::thread::Builder::new().stack_size(1 << 20).spawn(move || {
+        crate::sim::install_quiet_panic_hook();
+        let _ = tx.send(still_fails(&c));
+    });
+    if spawned.is_err() {
+        return None;
+    }
+    rx.recv_timeout(std::time::Duration::from_secs(secs)).ok().flatten()
 }
 
 fn generic_candidates(v: &Violation) -> Vec<Violation> {
@@ -329,19 +414,26 @@ fn weight(v: &Violation) -> usize {
 
 pub fn minimise(check: &dyn Check, mut v: Violation, budget: usize) -> Violation {
     let mut tries = 0usize;
+    // wall-clock cap per violation (a hang-type violation costs a full step
+    // budget per attempt); the result is then merely smaller, not minimal
+    let t0 = Instant::now();
+    let cap = std::time::Duration::from_secs(std::env::var("VERIF_MIN_SECS").ok().and_then(|s| s.parse().ok()).unwrap_or(40));
     loop {
+        if t0.elapsed() > cap {
+            return v;
+        }
         let mut improved = false;
         let mut cands = check.shrink(&v);
         cands.extend(generic_candidates(&v));
         for c in cands {
-            if tries >= budget {
+            if tries >= budget || t0.elapsed() > cap {
                 return v;
             }
             if weight(&c) >= weight(&v) {
                 continue;
             }
             tries += 1;
-            if let Some((detail, observed, trace, choices)) = still_fails(&c) {
+            if let Some((detail, observed, trace, choices)) = still_fails_bounded(&c, 15) {
                 // an unexpected error must stay the *same* error while shrinking
                 if v.class == "unexpected-error" && err_key(&detail) != err_key(&v.detail) {
                     continue;
@@ -367,7 +459,10 @@ pub fn minimise(check: &dyn Check, mut v: Violation, budget: usize) -> Violation
                     let mut c = v.clone();
                     c.choices[i] = 0;
                     tries += 1;
-                    if still_fails(&c).is_some() {
+                    if t0.elapsed() > cap {
+                        return v;
+                    }
+                    if still_fails_bounded(&c, 15).is_some() {
                         v = c;
                     }
                 }
@@ -491,6 +586,7 @@ pub fn run_campaign(cfg: &CampaignCfg, check: &dyn Check) -> CampaignResult {
             }
         }
     }
+    let runs_wall = start.elapsed().as_secs_f64();
     // classify raw violations; minimise the first 80 unexplained ones in
     // parallel (results are consumed in run order, so output stays
     // independent of the worker count)
@@ -521,7 +617,11 @@ pub fn run_campaign(cfg: &CampaignCfg, check: &dyn Check) -> CampaignResult {
                         if i >= to_min.len() {
                             break;
                         }
+                        let tm = Instant::now();
                         let min = minimise(check, to_min[i].1.clone(), 400);
+                        if std::env::var("VERIF_TIMING").is_ok() {
+                            eprintln!("timing: minimised run {} class {} in {:.1}s: {}", to_min[i].0, min.class, tm.elapsed().as_secs_f64(), min.scenario.sessions.get(min.session).and_then(|s| s.get(min.stmt)).map(|s| s.sql.chars().take(200).collect::<String>()).unwrap_or_default());
+                        }
                         *slots[i].lock().unwrap() = Some(min);
                     }
                 })
@@ -569,6 +669,9 @@ pub fn run_campaign(cfg: &CampaignCfg, check: &dyn Check) -> CampaignResult {
         }
         let path = write_replay(&cfg.replay_dir, &file).unwrap_or_else(|e| format!("<write failed: {e}>"));
         violations.push((min, path));
+    }
+    if std::env::var("VERIF_TIMING").is_ok() {
+        eprintln!("timing: runs {:.1}s, minimisation of {} raw violations {:.1}s", runs_wall, to_min.len(), start.elapsed().as_secs_f64() - runs_wall);
     }
     CampaignResult { stats, violations, known_lines: known_lines.into_iter().collect(), wall_s: start.elapsed().as_secs_f64() }
 }
